@@ -19,6 +19,8 @@ mod tstr {
     // one of them where the property needs `trim` does not verify by accident.
     pub uninterp spec fn trim_start_spec(s: Seq<char>) -> Seq<char>;
     pub uninterp spec fn trim_end_spec(s: Seq<char>) -> Seq<char>;
+    /// `str::trim_ascii` removes ASCII whitespace only: a different function from `trim`
+    pub uninterp spec fn trim_ascii_spec(s: Seq<char>) -> Seq<char>;
     /// `usize::from_str`: a function of the text (optional '+', ASCII digits, fits usize)
     pub uninterp spec fn parse_usize_spec(s: Seq<char>) -> Option<usize>;
     /// attribute lookup by contents in a HashMap<String, String>
